@@ -647,11 +647,11 @@ theorem C17_default_name_absent : ∀ kv ∈ Gen.outputFormatFileExtension,
     (runDefault kv.1 (some []) none).path (some "0-0-0-0".toList) = .ok (Gen.defaultOutputFile ++ kv.2) := by
   decide +kernel
 
-/-- **finding C17_F2 (= C19_F1).** With `output_file=` (present, empty) the third branch of `get_output_file_path` uses
-    the option *name* `OUTPUT_FILE` (`'output_file'`), not `DEFAULT_OUTPUT_FILE`: the result goes to `output_file.nt`. -/
-theorem C17_F2_empty_output_file_uses_option_name : ∀ kv ∈ Gen.outputFormatFileExtension,
-    (runDefault kv.1 none (some [])).path none = .ok (Gen.optOutputFile ++ kv.2) ∧
-    Gen.optOutputFile ++ kv.2 ≠ Gen.defaultOutputFile ++ kv.2 := by
+/-- **former finding C17_F2 (= C19_F1), repaired by /repo commit 8e4f7f8.** With `output_file=` (present, empty) the third
+    branch of `get_output_file_path` now uses `DEFAULT_OUTPUT_FILE`: the result goes to `knowledge-graph.nt` / `.nq`, as for
+    an absent option. If the option name is used again, this theorem no longer checks. -/
+theorem C17_default_name_empty : ∀ kv ∈ Gen.outputFormatFileExtension,
+    (runDefault kv.1 none (some [])).path none = .ok (Gen.defaultOutputFile ++ kv.2) := by
   decide +kernel
 
 /-- `output_file=./ d/kg`: the normalised path is `" d/kg.nt"` -/
